@@ -114,6 +114,7 @@ type Exec struct {
 	baseFDs             int
 	Notes               []string
 	FDsBefore, FDsAfter int
+	FDLeaks             []string // descriptors (any kind) the process holds after the run that it did not hold before
 	GoroutinesLeft      int
 }
 
